@@ -98,6 +98,11 @@ def run_unit(unit, rlimit=30, canary=False, extra=(), keep=True):
     res = {'unit': unit, 'status': 'ok', 'failures': [], 'undecided': [], 'functions': [], 'items': [],
            'verified': 0, 'errors': 0, 'wall_s': 0.0, 'trusted': [], 'cmd': '', 'smt_ms': 0, 'canary': canary}
     try:
+        import gen_keytable
+        try:
+            gen_keytable.main()
+        except Exception as ex:
+            raise ExtractError('key table generation from include/riti.h failed: %r' % (ex,))
         meta = asm.assemble(tmpl, out, canary=canary)
     except ExtractError as ex:
         res['status'] = 'undecided'
